@@ -145,6 +145,9 @@ func cmdCheck(w *World, cfg *RunCfg, prop, replay string, t0 time.Time) int {
 			results = append(results, r)
 		}
 	}
+	if prop == "C09" {
+		results = append(results, w.formatDelegation()...)
+	}
 	solveAll(w, cfg, results)
 
 	known := loadKnown(cfg.Verif)
@@ -463,7 +466,7 @@ func propertyCarrying(name string) bool {
 		return false
 	}
 	k := name[i+1:]
-	for _, p := range []string{"post.", "assert.", "maintains.", "encoder.safe", "nilin.nilout", "inv."} {
+	for _, p := range []string{"post.", "assert.", "maintains.", "encoder.safe", "nilin.nilout", "inv.", "delegates"} {
 		if strings.HasPrefix(k, p) {
 			return true
 		}
